@@ -69,6 +69,19 @@ class Obj(object):
         self.attrs = dict(attrs or {})
 
 
+class Opaque(object):
+    """An object whose content is irrelevant (config, logger, fault): attribute reads give the
+    recorded attribute or another Opaque, calls give an Opaque, stores are recorded."""
+
+    def __init__(self, label, attrs=None, truthy=True):
+        self.label = label
+        self.attrs = dict(attrs or {})
+        self.truthy = truthy
+
+    def __repr__(self):
+        return "Opaque(%s)" % self.label
+
+
 class _Return(Exception):
     def __init__(self, v):
         self.v = v
@@ -133,6 +146,8 @@ class Evaluator(object):
             return bool(v.elts)
         if isinstance(v, Obj):
             return True
+        if isinstance(v, Opaque):
+            return v.truthy
         if isinstance(v, Sym):
             if v.truthy is not None:
                 return v.truthy
@@ -228,6 +243,9 @@ class Evaluator(object):
             env[t.id] = v
         elif isinstance(t, ast.Attribute):
             o = self.expr(t.value, env, fi)
+            if isinstance(o, Opaque):
+                o.attrs[t.attr] = v
+                return
             if not isinstance(o, Obj):
                 raise AnalysisError("attribute store on %r" % (o,))
             o.attrs[mangle(o.cls, t.attr) if o.cls else t.attr] = v
@@ -236,6 +254,8 @@ class Evaluator(object):
             k = self.expr(t.slice, env, fi)
             if isinstance(d, D) and isinstance(k, K):
                 d.items[k.v] = v
+            elif isinstance(d, Sym) and getattr(d, "keys", None) is not None and isinstance(k, K):
+                d.keys[k.v] = v
             else:
                 raise AnalysisError("subscript store not modelled: %s" % dump(t))
         else:
@@ -259,7 +279,18 @@ class Evaluator(object):
                     if name not in o.attrs:
                         raise AnalysisError("attribute %s of abstract object not defined" % name)
                     return o.attrs[name]
+                if isinstance(o, Opaque):
+                    return o.attrs.get(e.attr, Opaque("%s.%s" % (o.label, e.attr)))
                 raise AnalysisError("attribute %s of %r not modelled" % (e.attr, o))
+            if isinstance(e.value, (ast.Attribute, ast.Call)):
+                try:
+                    o = self.expr(e.value, env, fi)
+                except AnalysisError:
+                    o = None
+                if isinstance(o, Opaque):
+                    return o.attrs.get(e.attr, Opaque("%s.%s" % (o.label, e.attr)))
+                if isinstance(o, Sym) and e.attr == "__name__":
+                    return Sym("name(%s)" % o.label, truthy=True, pytype=str)
             return self.global_value(e, fi)
         if isinstance(e, ast.Dict):
             d = D()
@@ -412,10 +443,24 @@ class Evaluator(object):
                 except (TypeError, ValueError) as ex:
                     raise _Raise(type(ex).__name__)
             return Sym("float(%s)" % a.label, truthy=a.truthy, rep=None if a.rep is None else float(a.rep), pytype=float)
+        if fname == "type" and len(args) == 1:
+            return Sym("type(%s)" % getattr(args[0], "label", "v"), truthy=True)
+        if isinstance(f, ast.Attribute) and f.attr == "format":
+            return Sym("formatted-string", truthy=True, pytype=str)
+        if isinstance(f, ast.Attribute) and isinstance(f.value, ast.Name) and f.value.id in ("_logger", "logging"):
+            return K(None)
         if fname == "isinstance" and len(args) == 2:
             ts = self.prog.typeset(fi.module, e.args[1])
+            if ts is None and isinstance(args[1], K):
+                tv = args[1].v if isinstance(args[1].v, tuple) else (args[1].v,)
+                flat = []
+                for x in tv:
+                    flat += list(x) if isinstance(x, tuple) else [x]
+                ts = set(t[5:] if isinstance(t, str) and t.startswith("type:") else t for t in flat)
             if ts is None:
                 raise AnalysisError("isinstance type not folded: %s" % dump(e))
+            if isinstance(args[0], Opaque):
+                return K(any(str(t).endswith(args[0].label) for t in ts))
             a = args[0]
             if isinstance(a, K):
                 return K(any(isinstance(a.v, TYPE_NAMES[t]) for t in ts if t in TYPE_NAMES))
@@ -448,6 +493,26 @@ class Evaluator(object):
                 if args[0].v in base.keys:
                     return base.keys[args[0].v]
                 return args[1] if len(args) > 1 else K(None)
+            if f.attr == "setdefault" and isinstance(base, Sym) and getattr(base, "keys", None) is not None \
+                    and isinstance(args[0], K):
+                if args[0].v not in base.keys:
+                    base.keys[args[0].v] = args[1] if len(args) > 1 else K(None)
+                return base.keys[args[0].v]
+            if isinstance(base, Opaque):
+                return Opaque("%s.%s()" % (base.label, f.attr))
+        # package-level functions and classes
+        r = self.prog.resolve(fi.module, f)
+        if r in self.prog.funcs:
+            callee = self.prog.funcs[r]
+            params = [x.arg for x in callee.node.args.args]
+            bound = dict(zip(params, args))
+            bound.update(kwargs)
+            return self._call(callee, bound, None)
+        if r in self.prog.classes:
+            cname = self.prog.classes[r].name
+            attrs = dict(kwargs)
+            attrs["__args__"] = L(args)
+            return Opaque(cname, attrs)
         raise AnalysisError("call not modelled by the shape interpreter: %s" % dump(e))
 
 
